@@ -1154,7 +1154,17 @@ func (x *Exec) execFor(n *ast.ForStmt, st *State, label string) *State {
 		}
 		x.pathTag = ""
 	}
-	return x.merge(append([]*State{exit}, fr.breaks...))
+	out := x.merge(append([]*State{exit}, fr.breaks...))
+	if out != nil && ls != nil {
+		for _, sn := range ls.SnapsAfter {
+			ex, err := parseSpec(sn[1])
+			if err != nil {
+				panic(specFailure{err.Error()})
+			}
+			out.ghost[sn[0]] = x.specEnv(out, n.Body.Rbrace).eval(ex)
+		}
+	}
+	return out
 }
 
 func (x *Exec) execRange(n *ast.RangeStmt, st *State, label string) *State {
